@@ -324,6 +324,13 @@ func (tr *vTrigRun) checkTriggers(ch int) {
 			}
 		}
 		sort.Ints(epT)
+		// 6. no pulse invented: one epoch never yields two primaries at the same frame of a channel
+		for k := 1; k < len(epT); k++ {
+			if epT[k] == epT[k-1] {
+				c.Violate("c02:duplicate", "channel %d: two primary records at the same frame %d within one configuration epoch (epoch %d: %s; %s)", ch, int(f.firstFrame)+epT[k], ei, ep.set[ch].desc, ep.how)
+				return
+			}
+		}
 		// decidable domain of the epoch, in stream-relative sample indices
 		lo := int(ep.startFrame - f.firstFrame)
 		if ep.lenChanged {
